@@ -315,7 +315,7 @@ int main(int argc, char **argv) {
 	if (!strcmp(mode, "struct") || !strcmp(mode, "pool")) {
 		int pool = !strcmp(mode, "pool");
 		int maxn = pool ? 3 : (vh_thorough ? 5 : 4);
-		int nvs = vh_thorough && !pool ? 4 : 3; const size_t *vs = nvs == 3 ? VS_Q : VS_T;
+		int nvs = (vh_thorough || pool) ? 4 : 3; const size_t *vs = nvs == 3 ? VS_Q : VS_T;     /* pooled sweep: blocks below and above 1024 bytes */
 		static const size_t RQ[] = { 1, 2, 16 }, RT[] = { 1, 2, 3, 16, 17 };
 		static const size_t BQ[] = { 1024 }, BT[] = { 1024, 1025, 4096 };
 		static const size_t PQ[] = { 0, 13 }, PT[] = { 0, 1, 13, 4096 };
